@@ -18,7 +18,15 @@ def check(ctx):
         corr.append(core.correspond(ctx, 'path', ctx.q(30000, 600000)))
     orc = None
     if ok_impl:
-        orc = core.harness_oracle(ctx, 'path-oracle', ctx.q(3000, 60000),
+        # the search starts from the names on which model and implementation disagreed
+        names = []
+        for c in corr:
+            for d in c.get('disagreements', [])[:40]:
+                w = d['request'].split()
+                if len(w) == 4 and w[2] not in names and w[2] != '-':
+                    names.append(w[2])
+        orc = core.harness_oracle(ctx, 'path-oracle', ctx.q(3000, 60000), extra=names,
+                                  rule=
                                   'metamorphic relations on the real path_to_filetype: rotation/case/junk/compress/'
                                   'type-word/default-text/dir-independence/explicit-always over generated names; '
                                   'distinct = distinct case descriptions')
